@@ -718,3 +718,253 @@ Section Init.
     split; [rewrite Ev; apply Z.eqb_refl|]. split; [congruence|]. exact Hpost.
   Qed.
 End Init.
+
+(* ================================================================ clause 2: valid iff checksum = XOR *)
+Definition hex_digit_list : list Z :=
+  [48; 49; 50; 51; 52; 53; 54; 55; 56; 57; 65; 66; 67; 68; 69; 70; 97; 98; 99; 100; 101; 102].
+
+Lemma is_hex_in : forall h, tbs_is_hex h -> In h hex_digit_list.
+Proof. intros h H. unfold tbs_is_hex in H. simpl. lia. Qed.
+
+Definition hex2_check (h1 h2 : Z) : bool :=
+  match pt_int_ascii 16 [h1; h2] with Some v => v =? 16 * tbs_hex_val h1 + tbs_hex_val h2 | None => false end
+  && pt_is_ascii [h1; h2] && pt_utf8_valid [h1; h2] && negb (h1 =? 42) && negb (h2 =? 42).
+
+Lemma hex2_all : forallb (fun h1 => forallb (fun h2 => hex2_check h1 h2) hex_digit_list) hex_digit_list = true.
+Proof. vm_compute. reflexivity. Qed.
+
+Lemma hex2_ok : forall h1 h2, tbs_is_hex h1 -> tbs_is_hex h2 -> hex2_check h1 h2 = true.
+Proof.
+  intros h1 h2 H1 H2. pose proof hex2_all as A. rewrite forallb_forall in A.
+  specialize (A h1 (is_hex_in h1 H1)). rewrite forallb_forall in A. exact (A h2 (is_hex_in h2 H2)).
+Qed.
+
+Section Clauses.
+  Variable uni : Z -> list Z -> option Z.
+
+  Lemma hex2_facts : forall h1 h2, tbs_is_hex h1 -> tbs_is_hex h2 ->
+    pt_int uni 16 [h1; h2] = Ok (16 * tbs_hex_val h1 + tbs_hex_val h2) /\
+    pt_utf8_valid [h1; h2] = true /\ ~ In 42 [h1; h2].
+  Proof.
+    intros h1 h2 H1 H2. pose proof (hex2_ok h1 h2 H1 H2) as C. unfold hex2_check in C.
+    repeat (apply andb_true_iff in C; destruct C as [C ?]).
+    repeat split.
+    - unfold pt_int. rewrite H4. destruct (pt_int_ascii 16 [h1; h2]); [|discriminate].
+      apply Z.eqb_eq in C. now subst.
+    - assumption.
+    - apply negb_true_iff in H, H0. apply Z.eqb_neq in H, H0. intros [Hi|[Hi|[]]]; congruence.
+  Qed.
+
+  Theorem valid_iff_checksum : forall payload h1 h2,
+    payload <> [] -> ~ In 42 payload -> tbs_is_hex h1 -> tbs_is_hex h2 ->
+    exists t, tb_init uni (payload ++ [42; h1; h2]) = Ok t /\
+      tb_actual t = tbs_xor payload /\
+      tb_expected t = 16 * tbs_hex_val h1 + tbs_hex_val h2 /\
+      tb_valid t = (tbs_xor payload =? 16 * tbs_hex_val h1 + tbs_hex_val h2).
+  Proof.
+    intros payload h1 h2 Hne H42 H1 H2.
+    destruct (hex2_facts h1 h2 H1 H2) as (Hi & Hu & Hk).
+    change (payload ++ [42; h1; h2]) with (payload ++ 42 :: [h1; h2]).
+    rewrite (tb_init_wellformed uni payload [h1; h2] _ Hne H42 Hk Hu Hi).
+    destruct (tb_parse_fields_total uni (pt_split 44 payload)
+                (mkTb (tbs_xor payload) (16 * tbs_hex_val h1 + tbs_hex_val h2)
+                      (tbs_xor payload =? 16 * tbs_hex_val h1 + tbs_hex_val h2) [] None)) as [t Ht].
+    exists t. split; [assumption|].
+    destruct (tb_parse_fields_head uni _ _ _ Ht) as (Ea & Ee & Ev). simpl in Ea, Ee, Ev. auto.
+  Qed.
+
+  (* ================================================================ clause 3: unknown / malformed fields *)
+  Lemma tb_group_from_str_inv : forall val g, tb_group_from_str uni val = Ok g -> tbs_wellformed_group uni val.
+  Proof.
+    intros val g. unfold tb_group_from_str.
+    destruct (pt_split_max 45 3 val) as [|a [|b [|c [|d l]]]] eqn:Es; try discriminate.
+    destruct (pt_int uni 10 a) as [x|] eqn:Ea; simpl; [|discriminate].
+    destruct (pt_int uni 10 b) as [y|] eqn:Eb; simpl; [|discriminate].
+    destruct (pt_int uni 10 c) as [z|] eqn:Ec; simpl; [|discriminate].
+    intros _.
+    apply pt_split_max_inv in Es. destruct Es as [Na [[Hr _]|(v1 & -> & E1)]]; [discriminate|].
+    symmetry in E1. apply pt_split_max_inv in E1. destruct E1 as [Nb [[Hr _]|(v2 & -> & E2)]]; [discriminate|].
+    symmetry in E2. apply pt_split_max_inv in E2. destruct E2 as [Nc [[_ ->]|(v3 & _ & E3)]].
+    - exists a, b, c, x, y, z. repeat split; assumption.
+    - rewrite pt_split_max_0 in E3. discriminate.
+  Qed.
+
+  Lemma parse_one_extra : forall t f, tbs_extra_field uni f -> parse_one uni t f = Ok t.
+  Proof.
+    intros t f H. unfold parse_one, tb_parse_field.
+    destruct (pt_utf8_valid f) eqn:Eu; simpl; [|reflexivity].
+    destruct H as [H|[H|[(spec & val & -> & Hs & Hk)|(val & -> & Hb)]]].
+    - congruence.
+    - rewrite pt_split_max_nosep by assumption. reflexivity.
+    - rewrite pt_split_max_app by assumption. rewrite pt_split_max_0.
+      destruct (pt_list_eqb spec [103]) eqn:Eg.
+      + apply pt_list_eqb_eq in Eg. subst. exfalso. apply Hk. vm_compute. tauto.
+      + destruct (tb_field_name spec) as [name|] eqn:En; [|reflexivity].
+        exfalso. apply Hk. eapply field_name_known; eauto.
+    - change (103 :: 58 :: val) with ([103] ++ 58 :: val).
+      rewrite pt_split_max_app by (intros [Hi|[]]; discriminate). rewrite pt_split_max_0.
+      change (pt_list_eqb [103] [103]) with true. cbv iota.
+      destruct (tb_group_from_str uni val) as [g|e] eqn:Eg; simpl.
+      + exfalso. apply Hb. eapply tb_group_from_str_inv; eauto.
+      + apply tb_group_from_str_raises in Eg. subst. reflexivity.
+  Qed.
+
+  Lemma parse_fields_skip : forall t fs1 junk fs2, tbs_extra_field uni junk ->
+    tb_parse_fields uni t (fs1 ++ junk :: fs2) = tb_parse_fields uni t (fs1 ++ fs2).
+  Proof.
+    intros t fs1 junk fs2 H. rewrite !tb_parse_fields_app.
+    destruct (tb_parse_fields uni t fs1) as [t1|e]; simpl; [|reflexivity].
+    fold (parse_one uni t1 junk). rewrite parse_one_extra by assumption. reflexivity.
+  Qed.
+
+  Theorem extras_ignored : forall fs1 junk fs2 h1 h2 h1' h2',
+    Forall (fun f => ~ In 44 f /\ ~ In 42 f) (fs1 ++ junk :: fs2) ->
+    tbs_extra_field uni junk ->
+    pt_join 44 (fs1 ++ fs2) <> [] ->
+    tbs_is_hex h1 -> tbs_is_hex h2 -> tbs_is_hex h1' -> tbs_is_hex h2' ->
+    exists t t',
+      tb_init uni (pt_join 44 (fs1 ++ fs2) ++ [42; h1; h2]) = Ok t /\
+      tb_init uni (pt_join 44 (fs1 ++ junk :: fs2) ++ [42; h1'; h2']) = Ok t' /\
+      (forall name, tb_attr t' name = tb_attr t name) /\ tb_group t' = tb_group t.
+  Proof.
+    intros fs1 junk fs2 h1 h2 h1' h2' Hsep Hx Hne H1 H2 H1' H2'.
+    assert (Hsep' : Forall (fun f => ~ In 44 f /\ ~ In 42 f) (fs1 ++ fs2)).
+    { apply Forall_app in Hsep. destruct Hsep as [Ha Hb]. inversion Hb; subst. apply Forall_app. auto. }
+    assert (Hl : fs1 ++ fs2 <> []) by (intro E; rewrite E in Hne; apply Hne; reflexivity).
+    assert (Hne' : pt_join 44 (fs1 ++ junk :: fs2) <> []).
+    { assert (exists a b r, fs1 ++ junk :: fs2 = a :: b :: r) as (a & b & r & E).
+      { destruct fs1 as [|a [|b r]]; simpl in *.
+        - destruct fs2 as [|b r]; [congruence|]. eauto.
+        - eauto.
+        - eauto. }
+      rewrite E. intro E0. pose proof (pt_join_in_sep 44 a b r) as Hi. rewrite E0 in Hi. destruct Hi. }
+    assert (N1 : ~ In 42 (pt_join 44 (fs1 ++ fs2))).
+    { apply pt_join_notin; [lia|]. eapply Forall_impl; [|exact Hsep']. simpl. tauto. }
+    assert (N2 : ~ In 42 (pt_join 44 (fs1 ++ junk :: fs2))).
+    { apply pt_join_notin; [lia|]. eapply Forall_impl; [|exact Hsep]. simpl. tauto. }
+    destruct (hex2_facts h1 h2 H1 H2) as (Hi & Hu & Hk).
+    destruct (hex2_facts h1' h2' H1' H2') as (Hi' & Hu' & Hk').
+    change (?c ++ [42; h1; h2]) with (c ++ 42 :: [h1; h2]).
+    change (?c ++ [42; h1'; h2']) with (c ++ 42 :: [h1'; h2']).
+    rewrite (tb_init_wellformed uni _ [h1; h2] _ Hne N1 Hk Hu Hi).
+    rewrite (tb_init_wellformed uni _ [h1'; h2'] _ Hne' N2 Hk' Hu' Hi').
+    rewrite pt_split_join; [|assumption|eapply Forall_impl; [|exact Hsep']; simpl; tauto].
+    rewrite pt_split_join; [|destruct fs1; discriminate|eapply Forall_impl; [|exact Hsep]; simpl; tauto].
+    rewrite parse_fields_skip by assumption.
+    match goal with |- exists t t', tb_parse_fields uni ?a _ = _ /\ tb_parse_fields uni ?b _ = _ /\ _ =>
+      destruct (tb_parse_fields_fields uni (fs1 ++ fs2) a b) as (t & t' & Ht & Ht' & Ha & Hg); [split; reflexivity|] end.
+    exists t, t'. repeat split; try assumption.
+    - intro name. unfold tb_attr. now rewrite Ha.
+    - congruence.
+  Qed.
+End Clauses.
+
+Lemma pt_lstrip_snoc_nonspace : forall l c, pt_is_space c = false -> exists l', pt_lstrip (l ++ [c]) = l' ++ [c].
+Proof.
+  induction l as [|y l IH]; intros c Hc; simpl.
+  - rewrite Hc. now exists [].
+  - destruct (pt_is_space y); [now apply IH|]. now exists (y :: l).
+Qed.
+
+Lemma pt_rstrip_cons_nonspace : forall c s, pt_is_space c = false -> exists r, pt_rstrip (c :: s) = c :: r.
+Proof.
+  intros c s Hc. unfold pt_rstrip. simpl rev.
+  destruct (pt_lstrip_snoc_nonspace (rev s) c Hc) as [l' E]. rewrite E.
+  rewrite rev_app_distr. simpl. eauto.
+Qed.
+
+(* ================================================================ clause 4: the sentence behind a tag block *)
+Lemma pre_process_tag_block : forall tb c s',
+  ~ In 92 tb -> pt_is_space c = false -> c <> 92 ->
+  tb_pre_process (92 :: tb ++ 92 :: c :: s') = Ok (pt_strip (c :: s'), Some tb) /\
+  tb_pre_process (c :: s') = Ok (pt_strip (c :: s'), None).
+Proof.
+  intros tb c s' Htb Hc H92.
+  assert (Hs : pt_strip (c :: s') = pt_rstrip (c :: s')).
+  { unfold pt_strip. now rewrite pt_lstrip_nonspace. }
+  assert (Hr : exists r, pt_rstrip (c :: s') = c :: r) by (now apply pt_rstrip_cons_nonspace).
+  destruct Hr as [r Hr].
+  split.
+  - unfold tb_pre_process.
+    assert (E : pt_strip (92 :: tb ++ 92 :: c :: s') = 92 :: tb ++ 92 :: pt_rstrip (c :: s')).
+    { unfold pt_strip. rewrite pt_lstrip_nonspace by reflexivity.
+      replace (92 :: tb ++ 92 :: c :: s') with ((92 :: tb ++ [92]) ++ c :: s')
+        by (simpl; now rewrite <- app_assoc).
+      rewrite (pt_rstrip_app _ (c :: s') c (or_introl eq_refl) Hc).
+      simpl. now rewrite <- app_assoc. }
+    rewrite E. rewrite Z.eqb_refl.
+    unfold pt_slice_from, pt_slice. change (Z.to_nat 1) with 1%nat. change (Z.to_nat (0 + 1)) with 1%nat.
+    cbn [skipn]. rewrite pt_find_app by assumption.
+    replace (Z.to_nat (Z.of_nat (length tb) + 1 - (0 + 1))) with (length tb) by lia.
+    replace (Z.to_nat (Z.of_nat (length tb) + 1 + 1)) with (S (S (length tb))) by lia.
+    rewrite skipn_cons, firstn_app_exact.
+    replace (skipn (S (length tb)) (tb ++ 92 :: pt_rstrip (c :: s'))) with (pt_rstrip (c :: s')).
+    + now rewrite Hs.
+    + replace (S (length tb)) with (length (tb ++ [92])) by (rewrite app_length; simpl; lia).
+      replace (tb ++ 92 :: pt_rstrip (c :: s')) with ((tb ++ [92]) ++ pt_rstrip (c :: s'))
+        by (now rewrite <- app_assoc).
+      now rewrite skipn_app_exact.
+  - unfold tb_pre_process. rewrite Hs, Hr.
+    destruct (c =? 92) eqn:E; [apply Z.eqb_eq in E; congruence|reflexivity].
+Qed.
+
+(* produce(): with any parser of the bare sentence, the tag block only sets .tag_block *)
+Theorem produce_behind_tag_block : forall (parse : list Z -> M sentence) tb c s',
+  ~ In 92 tb -> pt_is_space c = false -> c <> 92 ->
+  tb_produce_with parse (92 :: tb ++ 92 :: c :: s') =
+  match tb with
+  | [] => tb_produce_with parse (c :: s')
+  | _ :: _ => mmap (fun x => sentence_set_tag_block x (Some tb)) (tb_produce_with parse (c :: s'))
+  end.
+Proof.
+  intros parse tb c s' Htb Hc H92.
+  destruct (pre_process_tag_block tb c s' Htb Hc H92) as [E1 E2].
+  unfold tb_produce_with. rewrite E1, E2. simpl.
+  destruct (parse (pt_strip (c :: s'))); destruct tb; reflexivity.
+Qed.
+
+(* hex(x)[2:].upper() -- one digit below 0x10 -- reads back with int(.., 16) *)
+Lemma hex_int_roundtrip : forall (uni : Z -> list Z -> option Z) x, 0 <= x < 256 ->
+  pt_int uni 16 (pt_hex_upper x) = Ok x /\ (x < 16 -> length (pt_hex_upper x) = 1%nat).
+Proof.
+  intros uni x H. pose proof (hex_roundtrip x H) as C. unfold hex_check in C.
+  repeat (apply andb_true_iff in C; destruct C as [C ?]). split.
+  - unfold pt_int. rewrite H2. destruct (pt_int_ascii 16 (pt_hex_upper x)); [|discriminate].
+    apply Z.eqb_eq in C. now subst.
+  - intro Hl. unfold pt_hex_upper.
+    assert (E : x / 16 = 0) by (apply Z.div_small; lia).
+    destruct (S (Z.to_nat (Z.log2 x))) eqn:En; [discriminate|]. simpl. rewrite E. reflexivity.
+Qed.
+
+(* concrete fields for the non-vacuity example: source_station="ST", text="a:b", group="1-2-3", foo="x", text=None *)
+Definition ex_fields : tbs_fields :=
+  [ ("source_station"%string, Some [83; 84]); ("foo"%string, Some [120]); ("text"%string, Some [97; 58; 98]);
+    ("group"%string, Some [49; 45; 50; 45; 51]); ("line_count"%string, None) ].
+
+Lemma ex_text_ok : forall v, forallb (fun c => (0 <=? c) && (c <? 256) && negb (c =? 44) && negb (c =? 42)) v = true ->
+  pt_utf8_valid v = true -> tbs_text_ok v.
+Proof.
+  intros v H Hu. rewrite forallb_forall in H.
+  assert (F : forall c, In c v -> 0 <= c < 256 /\ c <> 44 /\ c <> 42).
+  { intros c Hc. specialize (H c Hc). repeat (apply andb_true_iff in H; destruct H as [H ?]).
+    apply Z.leb_le in H. apply Z.ltb_lt in H2. apply negb_true_iff in H1, H0. apply Z.eqb_neq in H1, H0. lia. }
+  repeat split; try assumption.
+  - apply Forall_forall. intros c Hc. apply F in Hc. lia.
+  - intro Hc. apply F in Hc. lia.
+  - intro Hc. apply F in Hc. lia.
+Qed.
+
+Lemma ex_fields_ok : tbs_some_field ex_fields /\ Forall tbs_field_ok ex_fields.
+Proof.
+  split.
+  - exists "source_station"%string, [83; 84]. split; [now left|reflexivity].
+  - unfold ex_fields.
+    constructor; [|constructor; [|constructor; [|constructor; [|constructor; [|constructor]]]]];
+      unfold tbs_field_ok; cbn [fst snd].
+    + intros _. split; [now apply ex_text_ok|discriminate].
+    + discriminate.
+    + intros _. split; [now apply ex_text_ok|discriminate].
+    + intros _. split; [now apply ex_text_ok|]. intros _. exists (1, 2, 3). exists [49], [50], [51].
+      unfold tbs_digits. repeat split; try discriminate; try (repeat constructor; lia); simpl; lia.
+    + exact I.
+Qed.
